@@ -195,6 +195,9 @@ func (j *JSON) add(file sts.Hashed) {
 		existing.Time = marshal.NanoTime{Time: file.GetTime()}
 		existing.Meta = file.GetMeta()
 		existing.Hash = file.GetHash()
+		// The file is (to be) sent again; whatever was confirmed before was
+		// an earlier version
+		existing.Done = false
 		return
 	}
 	j.Files[file.GetName()] = &cacheFile{
